@@ -210,8 +210,8 @@ def plan(tier, seed):
         grid(1, 3, 1, 1, "n3k1")
         grid(1, 3, 2, 1, "n3k2")
         grid(4, 4, 1, 1, "n4k1")
-        grid(4, 4, 2, 8, "n4k2")
-        grid(1, 3, 3, 16, "n3k3")
+        grid(4, 4, 2, 12, "n4k2")
+        grid(1, 3, 3, 24, "n3k3")
         nh, per = 16, 250
     else:
         grid(1, 4, 1, 1, "n4k1")
